@@ -64,6 +64,13 @@ add("C17", "vf-app", "complete enumeration of the configuration matrix (108 comb
     "Real handshakes over in-memory pipes through the crate's tls_connect / make_server_config / make_tls_identity / reload_tls_identity and TlsAcceptor (as serve_connection_tls uses it) with rcgen-generated trusted/other/client CAs and leaves: the connection (handshake plus one byte echoed each way) must succeed exactly when the statement's decision table says so, a server without client CA must not obtain a client certificate, and after a reload new handshakes present the new leaf while established connections keep working.",
     "Trusted: rcgen-generated PKIs, rustls/webpki as the TLS implementation under configuration. System root store, native-tls and ACME paths are outside the statement and not exercised.")
 
+add("C19", "vf-app", "bounded-exhaustive + random differential testing of the back-off generator against its closed form; property-based fault-script testing of the real client against a scripted fake server on loopback (generated per-attempt behaviours), with lower-bound-exact / confirmed-upper-bound timing oracles",
+    "Backoff is compared with min(initial*mult^k, max) over all small tuples x all advance/reset sequences up to length 8. The real client_main_inner runs against a fake server whose behaviour per connection attempt is generated (drop, stall, 403, serve then orderly Close / abrupt drop after d ms, silence, silence then drop, healthy): delays between a visible failure and the next attempt must be >= the reference back-off (hard) and close to it, restart from the shortest delay after any success, a new attempt must follow every loss, exactly max_retry_count+1 attempts precede MaxRetryCountReached, a non-retryable answer ends the client at once, and a local connection made while disconnected or whose stream request failed is echoed through the next successful connection.",
+    "Trusted: the fake server (tokio-tungstenite + a real Multiplexor), wall-clock time on loopback. Interleavings and timing are sampled; upper-bound and never-arrives verdicts are confirmed by an isolated re-run before being reported, otherwise the case counts as inconclusive.")
+add("C01", "vf-app", "property-based end-to-end testing on loopback (real client + real server, harness-driven local clients and targets) with a content-function oracle per connection and per datagram; entry x close-order matrix enumerated",
+    "Generated sets of 1-6 concurrent TCP connections through every entry kind (fixed TCP/Unix remotes, SOCKS4/4a/5 with IPv4/domain/IPv6, HTTP CONNECT) with payloads of 0..3 MB each way in generated chunkings and every close order (either side half-closes first, simultaneous, target reset, target port closed), and 1-6 concurrent UDP clients (plain remote and SOCKS5 associations, datagram sizes 0..60000, 0-3 replies): bytes must arrive unmodified, complete and in order with EOF propagated, the local connection must be closed rather than hang, UDP replies must reach exactly the originating socket from the address it sent to, unmodified, without duplicates, behind a well-formed RFC 1928 header for SOCKS5.",
+    "Trusted: the harness targets and local clients, the independent RFC 1928 parser of vf-ref. Real sockets and the real scheduler: interleavings are sampled; hang verdicts use a 20 s limit and are confirmed by a re-run.")
+
 ENG = {
  "vf-pure": ("/verif/harness/vf-pure", "proptest + bounded-exhaustive enumeration against reference codecs/models (E1)"),
  "vf-sim": ("/verif/harness/vf-sim", "simnet: deterministic simulator around the real penguin-mux crate (E2) and tokio paused-clock engine (E3)"),
